@@ -327,23 +327,23 @@ example : N.NGood [['b']] [['d']] [['k']] exDisk ∧
 
 /-- crash point in the middle of `restoreFile` (after the truncating `OpenFile`, before the write): the
 base file is empty — the second disjunct holds: the location still has "hello" -/
-example : crashed (dieAfter exAfterOpsN 7) = false ∧ crashed (exCrashRollbackN 7) = true ∧
+example : crashed (dieAfter exAfterOpsN 8) = false ∧ crashed (exCrashRollbackN 8) = true ∧
     contentAt exDisk [['b'], ['f']] = some "hello" ∧
-    contentAt (exCrashRollbackN 7).fs [['b'], ['f']] = some "" ∧
-    contentAt (exCrashRollbackN 7).fs [['b'], ['d'], ['f']] = some "hello" ∧
-    (exCrashRollbackN 7).fs.get [['b'], ['n']] = none := by
+    contentAt (exCrashRollbackN 8).fs [['b'], ['f']] = some "" ∧
+    contentAt (exCrashRollbackN 8).fs [['b'], ['d'], ['f']] = some "hello" ∧
+    (exCrashRollbackN 8).fs.get [['b'], ['n']] = none := by
   decide +kernel
 
 /-- crash point in the clean-up loops: the base is completely restored whether or not the copy is
 still in the location; and a crash plan that never fires -/
-example : crashed (dieAfter exAfterOpsN 15) = false ∧ crashed (exCrashRollbackN 15) = true ∧
-    (exCrashRollbackN 15).fs.get [['b'], ['f']] = exDisk.get [['b'], ['f']] ∧
-    (exCrashRollbackN 15).fs.get [['b'], ['n']] = none ∧
-    ((exCrashRollbackN 15).fs.get [['b'], ['d'], ['f']]).isSome = true ∧
-    crashed (exCrashRollbackN 16) = true ∧
+example : crashed (dieAfter exAfterOpsN 16) = false ∧ crashed (exCrashRollbackN 16) = true ∧
     (exCrashRollbackN 16).fs.get [['b'], ['f']] = exDisk.get [['b'], ['f']] ∧
-    (exCrashRollbackN 16).fs.get [['b'], ['d'], ['f']] = none ∧
-    crashed (exCrashRollbackN 17) = false := by
+    (exCrashRollbackN 16).fs.get [['b'], ['n']] = none ∧
+    ((exCrashRollbackN 16).fs.get [['b'], ['d'], ['f']]).isSome = true ∧
+    crashed (exCrashRollbackN 17) = true ∧
+    (exCrashRollbackN 17).fs.get [['b'], ['f']] = exDisk.get [['b'], ['f']] ∧
+    (exCrashRollbackN 17).fs.get [['b'], ['d'], ['f']] = none ∧
+    crashed (exCrashRollbackN 18) = false := by
   decide +kernel
 
 end Props.C02
